@@ -217,7 +217,7 @@ def check_c01(tier, pid="C01"):
     if pid == "C02": sc.proofs("C02+C02u", ["C02_best_exact_path_replays", "C02_chain_feasible_in_exact_arithmetic",
                                             "C02_sequential_solution_replays_to_reported_value"])
     if not sc.build(): return sc.chk.finish()
-    n = {"C01": 60, "C02": 40, "C09": 60}.get(pid, 40) * (1 if tier == "quick" else 10)
+    n = {"C01": 60, "C02": 40, "C09": 60}.get(pid, 40) * (1 if tier == "quick" else 40)
     kind = "reconv" if pid == "C09" else "plain"
     insts = gen_instances(sc.rng, n, kind)
     blocks = []
@@ -354,7 +354,7 @@ def check_cutoff(tier, pid):
                                        "C19_bounds_monotone_any_later_cutoff_NoDupFringe", "C19_large_cutoff_is_uninterrupted_run_NoDupFringe",
                                        "C19_holds_on_table_family_NoDupFringe", "C19_example_with_coalescing"])
     if not sc.build(): return sc.chk.finish()
-    n = 25 * (1 if tier == "quick" else 10)
+    n = 25 * (1 if tier == "quick" else 30)
     insts = gen_instances(sc.rng, n, "plain")
     cfgs = [(0, 0, 0, 1, 0), (1, 0, 1, 2, 0), (0, 1, 0, 1, 0), (1, 1, 1, 1, 0), (2, 0, 0, 2, 0), (0, 0, 1, 1, 1)]
     base_blocks = []
@@ -441,7 +441,7 @@ def check_c14(tier):
     sc.proofs("C14+C14u", ["C14_seq_solver_correct_with_primal", "C14_set_primal_replaces_only_when_strictly_greater",
                            "C14_primal_never_hides_the_optimum", "C14_primal_never_hides_the_optimum_NoDupFringe"])
     if not sc.build(): return sc.chk.finish()
-    n = 40 * (1 if tier == "quick" else 10)
+    n = 40 * (1 if tier == "quick" else 40)
     insts = gen_instances(sc.rng, n, "plain")
     enums = oracle_batch([(I.line(), ["O opt", "O enum 0 %d 1 %d" % (I.initval, I.init)]) for I in insts])
     blocks = []; metas = []
@@ -532,7 +532,7 @@ def check_c14(tier):
 def check_c15(tier):
     sc = SolveCheck("C15", tier)
     if not sc.build(): return sc.chk.finish()
-    n = 60 * (1 if tier == "quick" else 8)
+    n = 60 * (1 if tier == "quick" else 24)
     insts = gen_instances(sc.rng, n, "longarc")
     corpus = os.path.join(VERIF, "corpus", "C15")
     blocks = []
